@@ -8,6 +8,7 @@ import WpModel.Model.ReplacedBg
 import WpModel.Model.ImageDedupe
 import WpModel.Model.ImageDraw
 import WpModel.Model.ReplacedDoc
+import WpModel.Model.RasterEmbed
 
 namespace Wp.Drive.Replaced
 open Wp Wp.Replaced
@@ -310,6 +311,15 @@ def handle (cmd : String) (args : List Sx) : Option String :=
     let r := docSvg (← block.bool?) (← cssBox? css) (← cb? cb) (← cbh.len?) (← cx.rat?) (← py.rat?)
       (← optRat? w) (← optRat? h) vb
     pure (out (fun r => showRBox r.1 ++ " at " ++ showRat r.2.1 ++ " " ++ showRat r.2.2) r)
+  | "embed", [.atom mode, transp, .atom fmt, app14, rotated, hasData, optimize, quality] => do
+    let s : RasterEmbed.Src := ⟨RasterEmbed.PMode.ofPillow mode, ← transp.bool?, RasterEmbed.Fmt.ofPillow fmt,
+      ← app14.bool?, ← rotated.bool?, ← hasData.bool?⟩
+    let o : RasterEmbed.Opts := ⟨← optimize.bool?, ← quality.bool?⟩
+    pure (match RasterEmbed.embed s o with
+      | .error e => e.render
+      | .ok (r, x) => "ok " ++ " ".intercalate [r.mode.pillow, toString r.jpeg, toString r.reencoded,
+          toString r.invert, x.colorSpace, x.filter, toString x.colors3, toString x.smask,
+          toString x.decodeInverted, if RasterEmbed.faithful r then "pixels-same" else "pixels-unchecked"])
   | "docok", _ => some "ok"          -- a generated document was rendered and read back (structure checks of the harness)
   | "imgcount", [.list draws] => do
     let draws ← allSome draw? draws
